@@ -141,9 +141,14 @@ def sample_scenarios(trace, out, maxlines, seed):
     """Whole scenarios of `trace`, chosen at random (seeded), at most `maxlines` lines; all of them if maxlines is None."""
     import random
     sc, order = {}, []
+    skip = set()
     for line in open(trace):
         i = line.find('"sc":')
         k = int(line[i + 5:line.find(",", i)])
+        if '"k":"reset"' in line and '"what":"nat:' in line:
+            skip.add(k)        # the code advances the epoch itself in these scenarios: outside the step relation's vocabulary
+        if k in skip:
+            continue
         if k not in sc:
             sc[k] = []
             order.append(k)
